@@ -27,6 +27,9 @@ mod completion;
 mod formatting;
 mod standard;
 
+#[cfg(vhdl_ls_rust_hdl_verif)]
+pub mod verif_hooks;
+
 pub use crate::config::{Case, Config};
 pub use crate::data::{
     Diagnostic, Latin1String, Message, MessageHandler, MessagePrinter, MessageType,
